@@ -31,7 +31,7 @@ package codegen
 //
 //@ func adjustExprHandles
 //@   mode bv
-//@   tags C14 C13
+//@   tags C14 C13 C04
 //@   traverse remap kind ir.ExpressionHandle rmhm(handleMap, $)
 //@   except ExprAlias ExprPhi ExprCompose.Components
 //@   nopanic
@@ -152,6 +152,8 @@ package codegen
 //@   mode bv
 //@   tags C12 C17
 //@   order sort.Slice#1 [by-group-binding] key x :: x.binding
+//@   at return assert [explicit-map] anyblock(ok) && !isnil(old(w.options.PerEntryPointMap)) ==> w.currentResourceMap == anyblock(epRes).Resources
+//@   at return assert [fake-bindings-reset] old(w.options.FakeMissingBindings) && (isnil(old(w.options.PerEntryPointMap)) || !anyblock(ok)) ==> isnil(w.currentResourceMap)
 //
 //@ func (*Writer).collectOobLocalTypes
 //@   mode bv
@@ -184,3 +186,10 @@ package codegen
 //@   ensures [i64] width == 8 ==> result == "(-9223372036854775807L - 1L)"
 //@   pure
 //@   nopanic
+
+// ---- namer (C16): the reserved-word test is made on the sanitised spelling --------------------
+//
+//@ func (*namer).call
+//@   mode bv
+//@   tags C16
+//@   at isReserved assert [on-sanitized] arg0 == sanitized
